@@ -310,7 +310,7 @@ example : C08_demo.wf = true ∧ C08_demo.size = 7 ∧ (C08_demo.subst C08_demo)
 
 /-! ### compose at the level of trees -/
 
-theorem flatten_ns (cfg : Cfg) (t : PyObj) (ls : List PyObj) (sp : Spec) (h : flatten cfg t = .ok (ls, sp)) :
+theorem flatten_ns_nil (cfg : Cfg) (t : PyObj) (ls : List PyObj) (sp : Spec) (h : flatten cfg t = .ok (ls, sp)) :
     (sp.ns = cfg.ns ∨ sp.ns = "") ∧ sp.noneIsLeaf = cfg.noneIsLeaf := by
   unfold flatten at h
   simp only at h
@@ -342,9 +342,9 @@ theorem C08_compose_is_structure (cfg : Cfg) (hp : cfg.pred = Option.none) (ta t
   obtain ⟨ec, _⟩ := flatten_shapeOf cfg hp _ (wf_mapLeaves cfg σ hσw ta hwa) lc sc hc
   obtain ⟨wa, _⟩ := wg cfg (!cfg.insertionOrdered) ta hwa
   obtain ⟨wb, _⟩ := wg cfg (!cfg.insertionOrdered) tb hwb
-  obtain ⟨nsa, nila⟩ := flatten_ns cfg ta la sa ha
-  obtain ⟨nsb, nilb⟩ := flatten_ns cfg tb lb sb hb
-  obtain ⟨_, nilc⟩ := flatten_ns cfg _ lc sc hc
+  obtain ⟨nsa, nila⟩ := flatten_ns_nil cfg ta la sa ha
+  obtain ⟨nsb, nilb⟩ := flatten_ns_nil cfg tb lb sb hb
+  obtain ⟨_, nilc⟩ := flatten_ns_nil cfg _ lc sc hc
   have hcompat : nsCompatible sa.ns sb.ns = true := by
     unfold nsCompatible
     rcases nsa with h | h <;> rcases nsb with h' | h' <;> simp [h, h']
